@@ -11,6 +11,7 @@
     Definitions only; facts are in Lib/TermFacts.v. *)
 From Coq Require Import NArith List Bool.
 From Pi2 Require Import ML.Syntax ML.Subst.
+From Pi2 Require PTerm.Model.
 Import ListNotations.
 Open Scope N_scope.
 
@@ -35,26 +36,35 @@ Inductive pterm :=
 | Prop1 | Prop2 | Prop3
 | MP (l r : pterm)
 | Inst (t : pterm) (delta : list (N * pat))
-| LoadAx (a : pat).
+| LoadAx (a : pat)
+| Gen (t : pterm) (x : N).       (* exists_generalization: only proofs/substitution.py uses it *)
+
+(** [Pattern.instantiate] as the GENERATOR computes it (pattern.py; model shared with C02/C08:
+    PTerm/Model.v [py_inst]: metavariable constraints are ignored, pending substitutions are applied
+    with the generator's capture-unaware [apply_esubst]/[apply_ssubst]).  Whether the checker's
+    Instantiate agrees is a side condition of the replay theorems (Lib/Embed.v), not of the schemas. *)
+Module PM := Pi2.PTerm.Model.
 
 (** The documented rules (docs/proof-language.md; BasicInterpreter): conclusion of a proof term
     relative to the module's declared assumptions [axs]; [None] = some rule does not apply. *)
-Fixpoint static_conc (axs : list pat) (t : pterm) : option pat :=
+Fixpoint static_conc (g : bool) (axs : list pat) (t : pterm) : option pat :=
   match t with
   | Prop1 => Some ax1
   | Prop2 => Some ax2
   | Prop3 => Some ax3
   | MP l r =>
-      match static_conc axs l, static_conc axs r with
+      match static_conc g axs l, static_conc g axs r with
       | Some (Imp p q), Some p' => if pat_eqb p p' then Some q else None
       | _, _ => None
       end
-  | Inst t delta =>
-      match static_conc axs t with
-      | Some c => inst guards_sound c (map fst delta) (map snd delta)
-      | None => None
-      end
+  | Inst t delta => option_map (PM.py_inst delta) (static_conc g axs t)
   | LoadAx a => if existsb (pat_eqb a) axs then Some a else None
+  | Gen t x =>
+      (* Generalization (allowed only when [g]): the generalised variable must be fresh in the consequent *)
+      match static_conc g axs t with
+      | Some (Imp l r) => if g && e_fresh r x then Some (Imp (Ex x l) r) else None
+      | _ => None
+      end
   end.
 
 (** only Prop1-3 / MP / Inst occur by typing; the remaining leaves must be declared assumptions *)
@@ -64,13 +74,14 @@ Fixpoint uses_only (axs : list pat) (t : pterm) : bool :=
   | MP l r => uses_only axs l && uses_only axs r
   | Inst t _ => uses_only axs t
   | LoadAx a => existsb (pat_eqb a) axs
+  | Gen _ _ => false
   end.
 
 (** number of rule applications *)
 Fixpoint psize (t : pterm) : N :=
   match t with
   | MP l r => 1 + psize l + psize r
-  | Inst t _ => 1 + psize t
+  | Inst t _ | Gen t _ => 1 + psize t
   | _ => 1
   end.
 
@@ -80,9 +91,9 @@ Definition conc (t : thunk) : option pat := option_map snd t.
 Definition term_of (t : thunk) : option pterm := option_map fst t.
 
 (** run-time re-check of proof.py:42-46: replaying the term yields the stored conclusion *)
-Definition owf (axs : list pat) (t : thunk) : Prop :=
+Definition owf (g : bool) (axs : list pat) (t : thunk) : Prop :=
   match t with
-  | Some (tm, c) => static_conc axs tm = Some c
+  | Some (tm, c) => static_conc g axs tm = Some c
   | None => True
   end.
 
@@ -131,10 +142,15 @@ Definition dynamic_inst (pf : thunk) (delta : list (N * pat)) : thunk :=
   | Some (t, c) =>
       match delta with
       | [] => pf
-      | _ => match inst guards_sound c (map fst delta) (map snd delta) with
-             | Some c' => Some (Inst t delta, c')
-             | None => None end
+      | _ => Some (Inst t delta, PM.py_inst' delta c)
       end
+  end.
+
+(** ProofExp.exists_generalization (proof.py:167-172): no freshness check when the thunk is BUILT *)
+Definition gen (pf : thunk) (x : N) : thunk :=
+  match pf with
+  | Some (t, Imp l r) => Some (Gen t x, Imp (Ex x l) r)
+  | _ => None
   end.
 
 Definition load_ax (axs : list pat) (a : pat) : thunk :=
@@ -203,11 +219,12 @@ Fixpoint match_single (p inst : pat) (ret : list (N * pat)) : option (list (N * 
   end.
 
 (** the rule instructions a term replays, in order (what a recording interpreter sees) *)
-Inductive rule := RProp1 | RProp2 | RProp3 | RMP | RInst (delta : list (N * pat)) | RLoad (a : pat).
+Inductive rule := RProp1 | RProp2 | RProp3 | RMP | RInst (delta : list (N * pat)) | RLoad (a : pat) | RGen (x : N).
 Fixpoint trace (t : pterm) : list rule :=
   match t with
   | Prop1 => [RProp1] | Prop2 => [RProp2] | Prop3 => [RProp3]
   | MP l r => trace l ++ trace r ++ [RMP]
   | Inst t d => trace t ++ [RInst d]
   | LoadAx a => [RLoad a]
+  | Gen t x => trace t ++ [RGen x]
   end.
